@@ -137,7 +137,7 @@ func collectInputs(g TrieGen, maxN int) [][]byte {
 	return out
 }
 
-var c11Junks = []string{"nul", "a", "crlf", "colon", "ff", "\r\n\r\n"}
+var c11Junks = []string{"nul", "a", "crlf", "colon", "ff", "\r\n\r\n", "\xef\xbb\xbf", "\xff\xfe", "SIP/2.0 200 OK\r\n", "INVITE sip:a SIP/2.0\r\nl: 0\r\n\r\n"}
 
 func c11Offsets(l int) []int {
 	return []int{1, 2, 3, 255, 256, 257, 32767, 32768, 65535 - l - 1, 65535 - l}
@@ -205,6 +205,13 @@ func checkC11(r *Run) {
 	var msgs [][]byte
 	for _, m := range longMsgs {
 		msgs = append(msgs, []byte(m))
+	}
+	// texts that begin with bytes a tolerant reader might strip (byte order marks, NULs, blanks): same treatment at
+	// every offset
+	for _, m := range longMsgs[:4] {
+		for _, pre := range []string{"\xef\xbb\xbf", "\xff\xfe", "\xfe\xff", "\x00", " ", "\t", "\x1a"} {
+			msgs = append(msgs, []byte(pre+m))
+		}
 	}
 	msgs = append(msgs, collectInputs(msgTrie{strs(flineMenu), strs(hdrLineMenuFull), 1, strs(blankMenu), strs(bodyMenu)}, maxIn)...)
 	var mcf []Cfg
